@@ -31,6 +31,10 @@ import (
 //	          unchanged and are followed by a tail of *different* points (new ids, bounds Bounds2[J:]) that may
 //	          be shorter or longer than the old tail (a non-prefix-stable change of the consulted choice points),
 //	          or by no tail at all (the deeper points are simply not reached any more)
+//	churn   - the first J points (Bounds[:J]) are consulted unchanged on every attempt; the tail below them
+//	          alternates every Every attempts between Bounds[J:] and Tail2 (other bounds, or the same bounds under
+//	          other ids): a prefix-stable change that keeps re-creating the nested records
+//	skip    - stable, but every Every-th attempt is rolled back before it consults any choice point
 //	tree    - an either at point 0 whose alternatives consult *different* chains of points (ids per arm, bounds
 //	          Arms[a]): every switch of alternative replaces the consulted tail
 type script struct {
@@ -41,7 +45,9 @@ type script struct {
 	J       int      `json:"j,omitempty"`
 	Bounds2 []uint   `json:"bounds2,omitempty"`
 	NewID   bool     `json:"new_id,omitempty"`
-	Arms    [][]uint `json:"arms,omitempty"` // tree: one chain of choice points (own ids) per alternative of the either at point 0
+	Tail2   []uint   `json:"tail2,omitempty"` // churn: the alternative tail
+	Every   int      `json:"every,omitempty"` // churn: the tail is swapped every Every attempts; skip: every Every-th attempt consults nothing
+	Arms    [][]uint `json:"arms,omitempty"`  // tree: one chain of choice points (own ids) per alternative of the either at point 0
 	Seed    int64    `json:"seed"`
 }
 
@@ -64,6 +70,12 @@ func runScript(s script) (start string, f *failure) {
 	}()
 	if s.Kind == "tree" {
 		return runTree(s)
+	}
+	if s.Kind == "churn" {
+		return runChurn(s)
+	}
+	if s.Kind == "skip" {
+		return runSkip(s)
 	}
 	rand.Seed(s.Seed)
 	cnt := distsys.MakeRoundRobinFairnessCounter()
@@ -203,6 +215,82 @@ func runTree(s script) (start string, f *failure) {
 		hist = append(hist, l)
 	}
 	return start, windows(hist, 0, 2*period, want, false, "tree")
+}
+
+// runChurn: see the script kinds.  The stable prefix must not be starved by the churn below it: every combination
+// of the prefix points has to be returned in every window of 2 * prod(prefix) * max(prod(tail), prod(tail2)) attempts.
+func runChurn(s script) (start string, f *failure) {
+	rand.Seed(s.Seed)
+	cnt := distsys.MakeRoundRobinFairnessCounter()
+	pre, tailA, tailB := s.Bounds[:s.J], s.Bounds[s.J:], s.Tail2
+	mt := prod(tailA)
+	if prod(tailB) > mt {
+		mt = prod(tailB)
+	}
+	W := 2 * prod(pre) * mt
+	var hist []string
+	for at := 0; at < 4*W+1; at++ {
+		cnt.BeginCriticalSection("A.l")
+		var leaf []string
+		for i, b := range pre {
+			v := cnt.NextFairnessCounter(fmt.Sprintf("A.l.%d", i), b)
+			if v >= b {
+				return start, &failure{"range/churn", fmt.Sprintf("attempt %d point %d: answer %d not below bound %d", at, i, v, b)}
+			}
+			leaf = append(leaf, fmt.Sprint(v))
+		}
+		tail, tag := tailA, "a"
+		if (at/s.Every)%2 == 1 {
+			tail, tag = tailB, "b"
+			if s.NewID {
+				tag = "a" // same ids, only the bounds differ
+			}
+		}
+		for i, b := range tail {
+			id := fmt.Sprintf("A.l.%d", s.J+i)
+			if tag == "b" {
+				id += "'"
+			}
+			if v := cnt.NextFairnessCounter(id, b); v >= b {
+				return start, &failure{"range/churn", fmt.Sprintf("attempt %d point %s: answer %d not below bound %d", at, id, v, b)}
+			}
+		}
+		l := strings.Join(leaf, ",")
+		if at == 0 {
+			start = l
+		}
+		hist = append(hist, l)
+	}
+	return start, windows(hist, 0, W, allCombos(pre), false, "churn")
+}
+
+// runSkip: every Every-th attempt is rolled back before it consults anything; the other attempts must still see
+// every combination exactly once in every window of prod(bounds) consulting attempts.
+func runSkip(s script) (start string, f *failure) {
+	rand.Seed(s.Seed)
+	cnt := distsys.MakeRoundRobinFairnessCounter()
+	P := prod(s.Bounds)
+	var hist []string
+	for at := 0; len(hist) < 3*P+1; at++ {
+		cnt.BeginCriticalSection("A.l")
+		if at%s.Every == s.Every-1 {
+			continue // e.g. the section's first read was not ready
+		}
+		var leaf []string
+		for i, b := range s.Bounds {
+			v := cnt.NextFairnessCounter(fmt.Sprintf("A.l.%d", i), b)
+			if v >= b {
+				return start, &failure{"range/skip", fmt.Sprintf("attempt %d point %d: answer %d not below bound %d", at, i, v, b)}
+			}
+			leaf = append(leaf, fmt.Sprint(v))
+		}
+		l := strings.Join(leaf, ",")
+		if len(hist) == 0 {
+			start = l
+		}
+		hist = append(hist, l)
+	}
+	return start, windows(hist, 0, P, allCombos(s.Bounds), true, "skip")
 }
 
 func extra(s script) int {
@@ -380,6 +468,43 @@ func genScripts(thorough bool) []script {
 			}
 		}
 	}
+	// churn: a stable prefix over a tail that keeps changing (bounds or ids), swapped every 1..3 attempts
+	for d := 2; d <= 3; d++ {
+		for _, b := range tuples(vals[:3], d) {
+			for j := 1; j < d; j++ {
+				if prod(b[:j]) < 2 {
+					continue
+				}
+				for every := 1; every <= 3; every++ {
+					for _, t2 := range tuples(vals[:3], d-j) {
+						same := true
+						for i := range t2 {
+							if t2[i] != b[j+i] {
+								same = false
+							}
+						}
+						if same {
+							out = append(out, script{Kind: "churn", Bounds: b, J: j, Tail2: t2, Every: every}) // same bounds, other ids
+						} else {
+							out = append(out, script{Kind: "churn", Bounds: b, J: j, Tail2: t2, Every: every, NewID: true})
+							out = append(out, script{Kind: "churn", Bounds: b, J: j, Tail2: t2, Every: every})
+						}
+					}
+				}
+			}
+		}
+	}
+	// skip: every 2nd / 3rd attempt consults nothing
+	for d := 1; d <= 2; d++ {
+		for _, b := range tuples(vals[:3], d) {
+			if prod(b) < 2 {
+				continue
+			}
+			for every := 2; every <= 3; every++ {
+				out = append(out, script{Kind: "skip", Bounds: b, Every: every})
+			}
+		}
+	}
 	// tree: an either over 2 (thorough: also 3) alternatives with their own chains of 1..2 points
 	var chains [][]uint
 	for tl := 1; tl <= 2; tl++ {
@@ -503,7 +628,7 @@ func TestCheck(t *testing.T) {
 				need = len(leaves(s))
 			}
 			maxSeed := int64(4000)
-			if s.Kind == "tree" {
+			if s.Kind == "tree" || s.Kind == "churn" {
 				// the counters of an arm are re-created (at fresh random values) on every switch of alternative:
 				// the whole run depends on the seed, not only on the first attempt; a fixed set of seeds is explored
 				need, maxSeed = 1<<30, 48
@@ -523,18 +648,18 @@ func TestCheck(t *testing.T) {
 					seen[start] = true
 					continue
 				}
-				if !seen[start] || s.Kind == "tree" {
+				if !seen[start] || s.Kind == "tree" || s.Kind == "churn" {
 					seen[start] = true
 					evals++
 					byKind[s.Kind]++
-					outcomes[fmt.Sprintf("%s|%v|%v|%v|%v|%d|%d|%s", s.Kind, s.Bounds, s.On, s.Bounds2, s.Arms, s.K, s.J, start)] = true
+					outcomes[fmt.Sprintf("%s|%v|%v|%v|%v|%v|%d|%d|%d|%s", s.Kind, s.Bounds, s.On, s.Bounds2, s.Arms, s.Tail2, s.Every, s.K, s.J, start)] = true
 					if len(samples) < 4 && prod(s.Bounds) > 3 && seed > 0 {
 						sc := s
 						samples = append(samples, map[string]any{"script": sc, "first_attempt": start})
 					}
 				}
 			}
-			if len(seen) < need && s.Kind != "tree" {
+			if len(seen) < need && s.Kind != "tree" && s.Kind != "churn" {
 				incomplete++
 			}
 			startsSeen += len(seen)
